@@ -354,3 +354,9 @@ Definition mon_batch_acct (close_class : nat) (unread : Z) (closed : bool) : boo
 Definition mon_batch_serve (close_class : nat) (closed : bool) (res : list nat) : bool :=
   negb (Nat.eqb close_class 3) &&
   implb (batch_open close_class closed) (forallb (fun c => Nat.eqb c 1 || Nat.eqb c 6) res).
+
+(* every call of the list was served with a value (own = 1; a foreign value, 6, is judged by
+   mon_batch_own): ops trtail (followers on a re-used pooled connection) and poolx (reads and
+   closes of Batches on several Conns sharing the decompression buffer pool) *)
+Definition mon_all_served (res : list nat) : bool :=
+  forallb (fun c => Nat.eqb c 1 || Nat.eqb c 6) res.
